@@ -283,7 +283,7 @@ func colourFrames(colours func(yield func(r, g, b int)), width int) {
 
 // ---- (c) width method ---------------------------------------------------------------------
 
-var widthAlphabet = []string{"a", "é", "é", "世", "😀", "👩‍🚀", "🇺🇸", "❤️", "​", "한", "ｱ"}
+var widthAlphabet = []string{"a", "é", "e\u0301", "世", "😀", "👩‍🚀", "🇺🇸", "❤️", "​", "한", "ｱ"}
 
 func widthCases() {
 	for _, ver := range []refterm.Version{refterm.VersionNone, refterm.VersionKitty, refterm.VersionTmux34, refterm.VersionOther} {
